@@ -19,8 +19,8 @@ From RX.Model Require Import Base CharClass Stream Tokenizer Doc Builder Parse A
 From RX.Spec Require Cst.
 From RX.Spec Require CstText CstEnt.
 From RX.Proofs Require Import BorrowLocal BorrowTokenizer BorrowParse TextMerge CstRangeDefs CstRangeMain CstRangeTDefs CstRangeTMain CstEntDoc CstRangeEDefs CstRangeEMain.
-From RX.Spec Require CstFull.
-From RX.Proofs Require CstRangeFDefs CstRangeFS2.
+From RX.Spec Require CstFull CstFullS5.
+From RX.Proofs Require CstRangeFDefs CstRangeFS2 CstRangeG5Defs CstRangeG5.
 Open Scope N_scope.
 
 (* ---- Proofs/BorrowLocal.v ---- *)
@@ -183,3 +183,29 @@ Proof. exact parse_render_storage_f2. Qed.
 Print Assumptions C18_parse_render_storage_f2.
 
 End G7.
+
+(* ---- Proofs/CstRangeG5.v ---- *)
+Module G8.
+Import RX.Spec.CstFull. Import RX.Spec.CstFullS5. Import RX.Proofs.CstRangeFDefs. Import RX.Proofs.CstRangeFS2. Import RX.Proofs.CstRangeG5Defs. Import RX.Proofs.CstRangeG5.
+Theorem C18_parse_render_storage_f5 :
+  forall (d : S5.doc) (opt : options) doc,
+  S5.wf_doc d = true -> (S5.has_dtd d = true -> allow_dtd opt = true) ->
+  N.of_nat (length (S5.sem d)) < nodes_limit opt ->
+  N.of_nat (length (S5.render d)) <= u32_max ->
+  S5.distinct_decls_le d (N.to_nat 65535) ->
+  1 + N.of_nat (S5.ns_cost d) <= u32_max ->
+  parse (S5.render d) opt = Ok doc ->
+  (* every node holds exactly what [fshapes5] says: comments and PIs (those of the prolog and of the
+     internal subset too) hold slices of the input; a Text node is Borrowed with the span of its only
+     fragment -- a literal or a CDATA section of the document, or the literal value of an entity inside
+     the internal subset, through any nesting of references that add nothing else -- or Owned with its text *)
+  Forall2 stored_as_f (map nd_kind (tl (d_nodes doc))) (fshapes5 d) /\
+  (* every ordinary attribute: local name = slice of the written local part; a value with a
+     reference is Owned with the normalised value *)
+  Forall2 attr_stored_f (d_attrs doc) (fattr_spans5 d) /\
+  (* the namespace table, as in stage S2; a URI written with an entity reference is Owned *)
+  d_ns_values doc = xml_ns :: map ns_entry_of (fns_table5 d).
+Proof. exact parse_render_storage_f5. Qed.
+Print Assumptions C18_parse_render_storage_f5.
+
+End G8.
